@@ -121,7 +121,11 @@ def part_interpolation(g, res):
     hs = sorted({float(round(h, 3)) for h in g.uniform(20, 400, nh)})
     coords = GG.grid(int(g.integers(1, 5)), int(g.integers(1, 5)), 5.0)
     base = np.array(GG.synthetic_g_lts(g, len(coords)))
-    curves = {h: (base * (1 + 0.002 * (h - 100) / 100) + 0.1 * math.log(h / 100.0)).tolist() for h in hs}
+    # the family may be stored in any order (a dict built from a descending or shuffled list of heights is just as valid)
+    order = int(g.integers(0, 3))
+    hs_store = hs if order == 0 else (hs[::-1] if order == 1 else [hs[i] for i in g.permutation(len(hs))])
+    curves = {h: (base * (1 + 0.002 * (h - 100) / 100) + 0.1 * math.log(h / 100.0)).tolist() for h in hs_store}
+    res["storage_orders"].add(["ascending", "descending", "shuffled"][order])
     b = float(g.uniform(3, 9))
     r_b = float(g.uniform(0.05, 0.11))
     for h in hs:
@@ -250,7 +254,7 @@ def run_shard(spec):
     tap = CombineTap()
     res = {
         "viol": [], "nontrivial": [], "samples": [], "combine_direct": 0, "real_ghe": 0, "sts_end_below": 0, "sts_end_above": 0,
-        "interp_checked": 0, "families": set(), "radius_checked": 0, "worst_interp_err": 0.0, "uhtr_checked": 0, "worst_uhtr_single": 0.0,
+        "interp_checked": 0, "families": set(), "storage_orders": set(), "radius_checked": 0, "worst_interp_err": 0.0, "uhtr_checked": 0, "worst_uhtr_single": 0.0,
         "worst_uhtr_field": 0.0, "mift_checked": 0, "worst_mift_dev": 0.0, "mift_budget": spec["mift"], "selfcheck": oracle_selfcheck(),
     }
     for i in range(spec["n"]):
@@ -272,6 +276,7 @@ def run_shard(spec):
     res["combine_hits"] = tap.hits
     res["kept_counts"] = sorted(tap.kept_counts)
     res["families"] = sorted(res["families"])
+    res["storage_orders"] = sorted(res["storage_orders"])
     tap.uninstall()
     return res
 
@@ -300,6 +305,8 @@ def check(tier, seed):
         rep.evaluations += r["uhtr_checked"] + r["real_ghe"] + r["interp_checked"] + r["combine_direct"]
         hits += r["combine_hits"]
         fam.update(r["families"])
+        rep.extra.setdefault("family_storage_orders_seen", [])
+        rep.extra["family_storage_orders_seen"] = sorted(set(rep.extra["family_storage_orders_seen"]) | set(r.get("storage_orders", [])))
         kept.update(r["kept_counts"])
         worst_self = max(worst_self, r["selfcheck"])
         for k2 in ("combine_direct", "real_ghe", "sts_end_below", "sts_end_above", "interp_checked", "radius_checked", "uhtr_checked", "mift_checked"):
